@@ -509,6 +509,22 @@ Proof.
 Qed.
 End Create.
 
+(* a refused append with cache levels: an error, nothing written (the checks precede every write) *)
+Lemma push_refused_caches fs s p hdr ihdr l cs ts pay : RepS fs s p hdr ihdr l cs -> (ts < 2^64)%N -> accepts p l ts pay = false ->
+  exists e, push_line s ts pay fs = (fs, Err e).
+Proof.
+  intros R Hts A. unfold push_line. rewrite (rd_p _ _ _ _ _ _ _ _ (rs_data _ _ _ _ _ _ _ R)).
+  unfold accepts in A. unfold len.
+  destruct (length pay =? p) eqn:LP.
+  - apply Nat.eqb_eq in LP. replace (N.of_nat (length pay) =? N.of_nat p)%N with true by (symmetry; apply N.eqb_eq; lia).
+    cbn [negb]. replace (ts <? U64)%N with true in A by (symmetry; apply N.ltb_lt; unfold U64; exact Hts). cbn [andb] in A.
+    rewrite (rs_range _ _ _ _ _ _ _ R), first_last_last_opt.
+    destruct l as [|x t]; [discriminate|]. cbn [last_opt option_map] in *. apply N.ltb_ge in A.
+    replace (ts <=? fst (last t x))%N with true by (symmetry; apply N.leb_le; exact A). eexists. reflexivity.
+  - apply Nat.eqb_neq in LP. replace (N.of_nat (length pay) =? N.of_nat p)%N with false by (symmetry; apply N.eqb_neq; lia).
+    cbn [negb]. eexists. reflexivity.
+Qed.
+
 (* ---- any number of appends ---- *)
 Fixpoint push_lines (s:series) (xs:list line) : M series :=
   match xs with
